@@ -259,6 +259,11 @@ def r2_dispatch(ctx, prog, cg, summ):
     # outputregistry_dispatch -> callByName(CFG->output, message, CFG->output_arg)
     O = prog.require_func(OUT_DISPATCH)
     cbn = O.calls(OUT_CALLBYNAME)
+    if not cbn and [c for c in O.calls() if c.get('callee') is None]:
+        # the dispatcher looks the output up and calls through the table itself: the two-step rule below (dispatch ->
+        # callByName -> table) does not describe that shape
+        raise AnalysisBroken('%s calls through the output table itself instead of %s(): rule R2 does not follow that shape' % (
+            O.name, OUT_CALLBYNAME))
     ok = len(cbn) == 1
     detail = '%d calls of %s' % (len(cbn), OUT_CALLBYNAME)
     if ok:
@@ -633,6 +638,15 @@ def devlog_framing(ctx, o, msg, path):
         detail = 'delegation is %s, expected (<record buffer>, "%s")' % (render(d), path)
         if ok:
             bc = [c for c in sn if (decl_of(arg(c, 0)) or {}).get('id') == buf['id']]
+            if not bc and PROG[0] is not None:
+                from engine.dataflow import def_exprs as _de
+                for dx in _de(o, buf['id']):
+                    sx = strip(dx)
+                    hx = PROG[0].func(sx.get('callee'), o.tu) if sx is not None and sx.k == 'CallExpr' and sx.get('callee') else None
+                    if hx is not None and hx.internal:
+                        raise AnalysisBroken('the devlog record is composed by the file-local helper %s: the framing rule R4 is '
+                                             'written for a record formatted in %s itself and does not follow that split' % (
+                                                 hx.name, o.name))
             ok = len(bc) == 1
             detail = 'record buffer is written by %d snprintf calls' % len(bc)
             if ok:
